@@ -225,4 +225,24 @@ def renderTemplate (e : Env) (tb : Tables) (st : Stmts) (V : Val) (keep : Bool) 
     | .ok ns => some (renderNodes V ns)
     | .error _ => none
 
+/-! ## trees without wrapper (what the parser builds for templates without marker) -/
+
+mutual
+/-- no `lineprefix` wrapper anywhere in the tree -/
+def Node.wrapperFree : Node → Bool
+  | .exprWrapped _ _ => false
+  | .blockWrapped _ _ => false
+  | .stmt _ _ b a => wrapperFreeL b && wrapperFreeL a
+  | _ => true
+def wrapperFreeL : List Node → Bool
+  | [] => true
+  | n :: ns => n.wrapperFree && wrapperFreeL ns
+end
+
+/-- the begin token of this tag does not end in `*` -/
+def Item.noStar : Item → Bool
+  | .data _ => true
+  | .var v _ => !endsStar v
+  | .tag v _ _ => !endsStar v
+
 end NunavutVerif.Lexer
